@@ -23,12 +23,12 @@ UPD = ["upd.args", "upd.constrained", "upd.kept", "upd.weight", "upd.discard", "
 ALLP = ["D0", "SOne", "SChain", "SIndep", "SNest", "SLit", "S2", "VmD", "VmS", "VmAx", "VmAx2", "VmMask", "Rep", "Rep3",
         "Sc1", "Sc2", "Sc3", "ScSw", "SwXY", "SwSame", "Sw3", "SSw", "SVm", "Msk", "MskD", "Dm", "Dm2", "DmMap", "DmCon",
         "DmSc", "OrE", "MixE", "Acc", "Red", "It", "ItF", "MIt", "MItF", "MItF1"]
-FAST = ["D0", "SOne", "SChain", "SIndep", "SNest", "SLit", "S2", "SDm", "MskSw", "VmSw", "SwN", "VmD", "VmS", "VmAx", "VmAx2", "VmMask", "Rep", "Rep3",
+FAST = ["VmAx1", "STup3", "D0", "SOne", "SChain", "SIndep", "SNest", "SLit", "S2", "SDm", "MskSw", "VmSw", "SwN", "VmD", "VmS", "VmAx", "VmAx2", "VmMask", "Rep", "Rep3",
         "SwXY", "SwSame", "Sw3", "SSw", "SVm", "Msk", "MskD", "Dm", "Dm2", "DmMap", "DmCon", "OrE", "MixE"]
 SLOW = ["Sc1", "Sc2", "Sc3", "ScSw", "DmSc", "Acc", "Red", "It", "ItF"]    # masked-iterate programs belong to C16 only
-EAGER = ["Clo1", "Clo2", "Clo0", "CloP", "CloK", "D0", "SOne", "SChain", "SIndep", "SNest", "SLit", "S2", "SDup", "Dm", "Dm2", "DmMap", "DmCon", "Msk", "MskD"]
+EAGER = ["STup3", "Clo1", "Clo2", "Clo0", "CloP", "CloK", "D0", "SOne", "SChain", "SIndep", "SNest", "SLit", "S2", "SDup", "Dm", "Dm2", "DmMap", "DmCon", "Msk", "MskD"]
 EAGER_ND = [x for x in EAGER if x != "SDup"]
-REGEN = ["D0", "SOne", "SChain", "SIndep", "SNest", "S2", "SDm", "Dm", "Dm2", "DmMap", "DmCon"]
+REGEN = ["STup3", "D0", "SOne", "SChain", "SIndep", "SNest", "S2", "SDm", "Dm", "Dm2", "DmMap", "DmCon"]
 REGEN_SLOW = ["Sc1", "Sc2", "DmSc", "It"]
 PROJ = ["D0", "SOne", "SChain", "SIndep", "SNest", "S2", "VmD", "VmS", "VmAx", "Rep", "SwXY", "SwSame", "Sw3", "SSw", "SVm",
         "Dm", "Dm2", "OrE", "MixE"]
@@ -72,7 +72,7 @@ PROFILES = {
                 gens=[dict(ids=PROJ, first=["simulate", "generate"], edits=["project", "project", "project", "update"], depth=4, n=(128, 2400)),
                       dict(ids=PROJ_SLOW, first=["simulate"], edits=["project"], depth=3, n=(30, 300))]),
     "C11": dict(own=CORE,
-                gens=[dict(ids=["VmD", "VmS", "VmAx", "VmAx2", "VmMask", "Rep", "Rep3", "SVm", "VmSw", "VmZ", "RepZ"], first=["simulate", "generate"], edits=["update", "updateargs", "indexupdate", "indexregen", "project"], depth=3, n=(128, 2400)),
+                gens=[dict(ids=["VmD", "VmS", "VmAx", "VmAx2", "VmMask", "Rep", "Rep3", "SVm", "VmSw", "VmZ", "RepZ", "VmAx1", "VmAx1"], first=["simulate", "generate"], edits=["update", "updateargs", "indexupdate", "indexregen", "project"], depth=3, n=(128, 2400)),
                       dict(ids=["VmD", "Rep3"], ids_thorough=["VmD", "VmS", "Rep", "Rep3", "VmAx"], first=["generate"], edits=[], depth=0, n=(0, 0), sub=True)]),
     "C12": dict(own=CORE,
                 gens=[dict(ids=["Sc1", "Sc2", "Sc3", "DmSc", "Acc", "Red", "It", "ItF"], first=["simulate", "generate"], edits=["update", "updateargs", "regenerate", "indexupdate", "indexregen"], depth=2, n=(64, 900))]),
@@ -87,7 +87,7 @@ PROFILES = {
     "C16": dict(own=CORE,
                 gens=[dict(ids=["MIt", "MItF", "MItF1"], first=["simulate", "generate"], edits=["update", "updateargs"], depth=1, n=(64, 600))]),
     "C22": dict(own=["visited", "reuse", "run", "missing", "assess.run"],
-                gens=[dict(ids=["SOne", "SChain", "SIndep", "SNest", "SLit", "S2", "SDup", "SSw", "SVm"], first=["simulate", "generate"], edits=["update", "regenerate", "staticreq", "assess", "assess", "assess"], depth=3, n=(160, 2000))]),
+                gens=[dict(ids=["SOne", "SChain", "SIndep", "SNest", "SLit", "S2", "SDup", "SDup", "SSw", "SVm", "STup3", "STup3"], first=["simulate", "generate"], edits=["update", "regenerate", "staticreq", "assess", "assess", "assess"], depth=3, n=(160, 2000))]),
     "C23": dict(own=["mode.status", "mode.same"], modes=True,
                 gens=[dict(ids=[x for x in FAST if x not in ("SLit",)] + ["VmNest"], first=["simulate", "generate"], edits=["update", "update", "updateargs", "regenerate", "project"], depth=2, n=(48, 1500)),
                       dict(ids=SLOW, first=["simulate", "generate"], edits=["update", "regenerate", "indexupdate"], depth=1, n=(8, 300))]),
